@@ -8,7 +8,7 @@ from __future__ import annotations
 import numpy as np
 
 from vlib.common import CaseResult, liesel_call, rng_for
-from vlib.enginelab import drive, expected_trace, final_logs, gen_probe_case
+from vlib.enginelab import drive, expected_trace, final_logs, gen_probe_case, kid
 from vlib.probes import decode_log, hist_checksum_np, total_time
 
 ID = "C07"
@@ -110,7 +110,7 @@ def run_one(case, res, collect=None):
         tun = tun.unwrap()
         adapt_epochs = [n for n, (t, _, _) in enumerate(case["spec"], start=1) if t in (1, 2)]
         for ki, kb in enumerate(case["kernels"]):
-            ti = tun[f"k{ki}"]
+            ti = tun[kid(ki)]
             hist = np.asarray(ti.hist)  # [C, n_tunings, 2]
             if hist.shape[1] != n_adapt:
                 res.violation("tuning-call", f"kernel {ki}: {hist.shape[1]} tuning infos stored, "
